@@ -28,6 +28,7 @@ import (
 	"verifh/drv"
 	"verifh/fakeredis"
 	"verifh/mon"
+	"verifh/resp"
 )
 
 const (
@@ -45,6 +46,7 @@ type scen struct {
 	sessions int
 	queue    string
 	seed     int64
+	retryFn  rueidis.RetryDelayFn // non-nil: retries enabled with this RetryDelay hook
 }
 
 func (sc scen) String() string {
@@ -129,7 +131,8 @@ func yield(n int) {
 func setup(sc scen) (*fakeredis.Server, rueidis.Client, error) {
 	s := fakeredis.New(fakeredis.Options{Seed: sc.seed, ChunkWrites: sc.idx%2 == 0}, primary)
 	opt := drv.Option(s, primary)
-	opt.DisableRetry = true
+	opt.DisableRetry = sc.retryFn == nil
+	opt.RetryDelay = sc.retryFn
 	opt.PipelineMultiplex = -1
 	opt.BlockingPoolSize = sc.pool
 	opt.AlwaysRESP2 = sc.resp2
@@ -896,6 +899,151 @@ func lastBubble(stacks string) string {
 	return strings.Join(keep, "\n\n")
 }
 
+// retryReleaseProbe: a dedicated call sits in its retry back-off (a retryable command answered LOADING, retries
+// enabled, ClientOption.RetryDelay hook) while the dedicated client is released or closed - by the hook itself or by
+// another goroutine during a long (virtual) back-off. Meanwhile the pooled connection (BlockingPoolSize 1) gets its
+// next holder. Required: the call returns ErrDedicatedClientRecycled and nothing of that session reaches the server
+// after the release began. (Only the dedicated client's own release / Close: what retries do after the PARENT
+// client's Close is property C28's business.)
+func retryReleaseProbe(t *testing.T, run *mon.Run, topo, api, how string, resp2 bool) {
+	name := fmt.Sprintf("%s|%s|%s|resp2=%v", api, how, topo, resp2)
+	var relStamp atomic.Int64
+	var hookCalls atomic.Int64
+	var actions sync.Map // uid -> func() time.Duration, run by the RetryDelay hook
+	sc := scen{idx: 9100, topo: topo, pool: 1, queue: "flowbuffer", noCache: true, resp2: resp2}
+	sc.retryFn = func(attempts int, cmd rueidis.Completed, err error) time.Duration {
+		for _, a := range cmd.Commands() {
+			if f, ok := actions.Load(a); ok {
+				hookCalls.Add(1)
+				return f.(func() time.Duration)()
+			}
+		}
+		return -1 // no retry for anything else
+	}
+	type outcome struct {
+		errs    []string
+		replies []string
+	}
+	var out outcome
+	var returned bool
+	var wire []string
+	var late []string
+	var nextReply string
+	dl, stacks := drv.Bubble(t, func() {
+		s, client, err := setup(sc)
+		if err != nil {
+			run.Inconclusive("retry probe setup failed (" + topo + "): " + err.Error())
+			return
+		}
+		ctx := context.Background()
+		dc, release := client.Dedicate()
+		dc.Do(ctx, dc.B().Arbitrary("VERIF.ECHO").Keys(echoKey).Args("S1.1", "str").Build())
+		end := func() {
+			relStamp.CompareAndSwap(0, mon.Stamp())
+			if strings.HasSuffix(how, "close") {
+				dc.Close()
+			} else {
+				release()
+			}
+		}
+		const uid = "S1.retry"
+		loading := respErr("LOADING Redis is loading the dataset in memory")
+		s.Plan(&fakeredis.Rule{Name: "loading-once", Match: fakeredis.MatchArg(uid), Times: 1, Action: fakeredis.Action{Reply: &loading}})
+		switch {
+		case strings.HasPrefix(how, "hook-"):
+			actions.Store(uid, func() time.Duration { end(); return 20 * time.Millisecond })
+		default: // another goroutine ends the session during a long back-off
+			actions.Store(uid, func() time.Duration { return 5 * time.Second })
+		}
+		done := make(chan struct{})
+		go func() {
+			defer close(done)
+			switch api {
+			case "Do":
+				r := dc.Do(ctx, dc.B().Arbitrary("VERIF.ECHO").Keys(echoKey).Args(uid, "str").ReadOnly())
+				s, _ := r.ToString()
+				out.errs, out.replies = []string{fmt.Sprint(r.Error())}, []string{s}
+			case "DoMulti":
+				for _, r := range dc.DoMulti(ctx, dc.B().Arbitrary("VERIF.ECHO").Keys(echoKey).Args(uid, "str").ReadOnly(), dc.B().Arbitrary("VERIF.ECHO").Keys(echoKey).Args("S1.retry2", "str").ReadOnly()) {
+					s, _ := r.ToString()
+					out.errs, out.replies = append(out.errs, fmt.Sprint(r.Error())), append(out.replies, s)
+				}
+			}
+		}()
+		if strings.HasPrefix(how, "bg-") {
+			time.Sleep(time.Second) // virtual: the call is in its back-off now
+			end()
+		}
+		time.Sleep(100 * time.Millisecond)
+		// the next holder of the pooled connection, while / before the retry would fire
+		ndone := make(chan struct{})
+		go func() {
+			defer close(ndone)
+			client.Dedicated(func(d2 rueidis.DedicatedClient) error {
+				nextReply, _ = d2.Do(ctx, d2.B().Arbitrary("VERIF.ECHO").Keys(echoKey).Args("S2.1", "str").Build()).ToString()
+				time.Sleep(8 * time.Second) // it keeps the connection while the retry fires
+				d2.Do(ctx, d2.B().Arbitrary("VERIF.ECHO").Keys(echoKey).Args("S2.2", "str").Build())
+				return nil
+			})
+		}()
+		time.Sleep(20 * time.Second)
+		select {
+		case <-done:
+			returned = true
+		default:
+		}
+		rs := relStamp.Load()
+		for _, e := range s.Log() {
+			if e.Kind == "recv" && e.Conn != 0 && ownerOf(e.Argv) != "" {
+				wire = append(wire, fmt.Sprintf("seq=%d conn=%d %s", e.Seq, e.Conn, strings.Join(e.Argv, " ")))
+				if ownerOf(e.Argv) == "S1" && rs != 0 && e.Seq > rs {
+					late = append(late, fmt.Sprintf("seq=%d conn=%d %s", e.Seq, e.Conn, strings.Join(e.Argv, " ")))
+				}
+			}
+		}
+		cdone := make(chan struct{})
+		go func() { client.Close(); close(cdone) }()
+		time.Sleep(10 * time.Second)
+		s.Close()
+	})
+	run.Case("retry-release-probe|"+name, true)
+	run.Observe("retry_release_probes", 1)
+	wit := map[string]any{"history": "Dedicate (BlockingPoolSize 1); VERIF.ECHO S1.1; " + api + "(read-only VERIF.ECHO S1.retry) answered LOADING once -> RetryDelay hook; the dedicated client is ended (" + how + "); Dedicated(next holder: S2.1, holds 8s, S2.2)",
+		"variant": name, "returned": returned, "errors": out.errs, "replies": out.replies, "release_began_at": relStamp.Load(), "session_commands_after_release": late, "next_holder_first_reply": nextReply, "wire": wire, "retry_hook_calls": hookCalls.Load()}
+	if dl != "" {
+		stacks = lastBubble(stacks)
+		if frames := drv.RueidisFrames(stacks); len(frames) > 0 {
+			run.Violation("hang-or-leak", "retry-release-probe|"+name, merge(wit, map[string]any{"synctest": dl, "rueidis_frames": frames}))
+		} else {
+			run.Inconclusive("retry probe: bubble deadlock without rueidis frames: " + name)
+		}
+		return
+	}
+	if hookCalls.Load() == 0 || relStamp.Load() == 0 {
+		run.Inconclusive("retry probe: the RetryDelay hook was never reached (" + name + ")")
+		return
+	}
+	run.Observe("retry_release_hook_reached", 1)
+	if !returned {
+		run.Violation("hang-or-leak", "retry-release-probe|call-did-not-return|"+name, wit)
+		return
+	}
+	if len(late) > 0 {
+		run.Violation("recycled-client-reached-server", "retry-after-release|"+name, wit)
+	}
+	for i, e := range out.errs {
+		if e != rueidis.ErrDedicatedClientRecycled.Error() {
+			run.Violation("recycled-client-accepted-call", fmt.Sprintf("%s[%d]-retry-after-release|%s", api, i, name), wit)
+			break
+		}
+	}
+	if nextReply != "echo:S2.1" {
+		run.Violation("wrong-reply", "next-holder-after-retry-release|"+name, wit)
+	}
+}
+
+func respErr(s string) resp.V { return resp.Err(s) }
+
 // probeResult is what the child process of a leak probe prints.
 type probeResult struct {
 	Replies []string
@@ -1041,6 +1189,11 @@ func TestC25(t *testing.T) {
 			run.Sample(map[string]any{"scenario": sc.String(), "sessions": len(w.sessions), "pipeline_calls": w.pipelineN.Load(), "blocking_calls": w.blockingN.Load()})
 		}
 	}
+	for _, v := range [][3]string{{"single", "Do", "hook-release"}, {"single", "Do", "bg-release"}, {"single", "Do", "hook-close"}, {"single", "Do", "bg-close"}, {"single", "DoMulti", "hook-release"}, {"single", "DoMulti", "bg-release"},
+		{"sentinel", "Do", "bg-release"}, {"standalone", "Do", "hook-release"}, {"cluster", "Do", "hook-release"}, {"cluster", "Do", "bg-release"}, {"cluster", "DoMulti", "bg-close"}} {
+		retryReleaseProbe(t, run, v[0], v[1], v[2], false)
+	}
+	retryReleaseProbe(t, run, "single", "Do", "bg-release", true)
 	for _, topo := range []string{"single", "cluster"} {
 		leakProbe(run, topo, false, false)
 		leakProbe(run, topo, true, false)
@@ -1064,7 +1217,7 @@ func TestC25(t *testing.T) {
 	run.Observe("pipeline_calls", int64(total.pipeline))
 	run.Observe("session_state_snapshots_checked", int64(total.sessionStateChecked))
 	run.Require("sessions", "sessions_via_Dedicated_fn", "sessions_ended_by_Close", "connections_reused_by_a_next_holder", "exec_succeeded", "exec_aborted_by_watch", "calls_after_release",
-		"sessions_with_subscriptions", "sessions_with_invalidation_callback", "tracking_off_seen_before_next_holder", "hook_messages", "blocking_calls", "pipeline_calls", "session_state_snapshots_checked", "leak_probe_runs")
+		"sessions_with_subscriptions", "sessions_with_invalidation_callback", "tracking_off_seen_before_next_holder", "hook_messages", "blocking_calls", "pipeline_calls", "session_state_snapshots_checked", "leak_probe_runs", "retry_release_probes", "retry_release_hook_reached")
 	_ = errors.New
 	_ = rand.Int
 }
